@@ -2,8 +2,8 @@
     Property theorems only: each is closed by [exact] of a lemma proved under Proofs/, followed by
     [Print Assumptions]. Models: Model/Varint.v, Model/PacketNumber.v (tied to the code by the
     correspondence check on every run). *)
-From QV Require Import Lib.Tac Lib.Bytes Lib.Corr Model.Varint Model.PacketNumber
-  Proofs.VarintProofs Proofs.PnProofs.
+From QV Require Import Lib.Tac Lib.Bytes Lib.Corr Model.Varint Model.PacketNumber Model.Frames
+  Proofs.VarintProofs Proofs.PnProofs Proofs.FramesProofs Proofs.FramesTotal Proofs.FramesIter.
 Open Scope Z_scope.
 
 (** Every encodable value round-trips, with arbitrary trailing bytes left untouched. *)
@@ -69,4 +69,105 @@ Proof. vm_compute. split; reflexivity. Qed.
 Example C10_pn_example :
   PacketNumber.encode 65836 65000 = Some (2%nat, [1; 44]) /\
   expand 2 300 65000 = 65836.
+Proof. vm_compute. split; reflexivity. Qed.
+
+(** * Frames (Model/Frames.v: frame.rs encoders, [frame::Iter], [scan_ack_blocks], [AckIter]) *)
+
+(** Every well-formed frame value other than ACK (next theorem) and CLOSE (the one after) is
+    encodable, and [Iter::try_next] on the encoding followed by arbitrary bytes [r] yields the
+    frame and continues exactly at [r]. STREAM / DATAGRAM frames encoded without a length field
+    extend to the end of the packet: they absorb [r] and leave nothing. *)
+Theorem C10_frame_roundtrip : forall withlen max_len f,
+  wf_frame f = true -> is_close f = false ->
+  exists b, encode_frame withlen max_len f = Some b /\
+    forall r, try_next (b ++ r) =
+              DOk (absorb withlen f r) (if self_delimiting withlen f then r else []).
+Proof. exact frame_roundtrip_fixed. Qed.
+Print Assumptions C10_frame_roundtrip.
+
+(** [Ack::encode] over the ranges of an [ArrayRangeSet] (ascending, half-open, separated):
+    the decoder yields an ACK whose [largest] is the top of the highest range and whose
+    [AckIter] walk returns exactly the encoded ranges, highest first, as inclusive ranges. *)
+Theorem C10_ack_ranges_roundtrip : forall delay rs ecn,
+  in62 delay = true -> wf_ranges rs = true -> wf_ecn ecn = true ->
+  exists b largest additional,
+    encode_ack delay rs ecn = Some b /\
+    (exists lo, hd_error (rev rs) = Some (lo, largest + 1)) /\
+    (forall r, try_next (b ++ r) = DOk (Ack largest delay additional ecn) r) /\
+    ack_ranges largest additional = AOk (map incl_range (rev rs)).
+Proof. exact ack_roundtrip. Qed.
+Print Assumptions C10_ack_ranges_roundtrip.
+
+(** [Close::encode(max_len)]: when [max_len] covers the bytes the encoder reserves
+    ([close_fits]; otherwise the Rust subtraction underflows) the frame round-trips with its
+    reason cut to a prefix of length [n]. *)
+Theorem C10_close_roundtrip : forall withlen max_len f,
+  wf_frame f = true -> is_close f = true -> close_fits max_len (DFrame f) = true ->
+  exists b n, encode_frame withlen max_len f = Some b /\
+    0 <= n <= zlen (close_reason f) /\
+    (forall r, try_next (b ++ r) = DOk (truncate_close n f) r).
+Proof. exact close_roundtrip. Qed.
+Print Assumptions C10_close_roundtrip.
+
+(** Whole payloads: [Iter] over the concatenated encodings returns exactly the frames. *)
+Theorem C10_frames_payload_roundtrip : forall max_len fs,
+  fs <> [] -> Forall (fun f => wf_frame f = true /\ is_close f = false) fs ->
+  exists p, encode_all max_len fs = Some p /\ iter p = Some (map IFrame fs).
+Proof. exact payload_roundtrip. Qed.
+Print Assumptions C10_frames_payload_roundtrip.
+
+(** Decoder totality with bounds: on arbitrary bytes [try_next] returns a frame and a strict
+    suffix of its input, or one of the three [IterErr]s; the checked [u64] additions of
+    [scan_ack_blocks] never overflow ([DPanic]) and the loop fuel (a model artefact) never runs
+    out ([E_FUEL] is not an [is_err]). *)
+Theorem C10_frame_decode_total : forall bs,
+  all_bytes bs = true ->
+  match try_next bs with
+  | DOk f r => exists pre, bs = pre ++ r /\ (1 <= length pre)%nat
+  | DErr e => is_err e
+  | DPanic => False
+  end.
+Proof. exact try_next_total. Qed.
+Print Assumptions C10_frame_decode_total.
+
+(** An ACK accepted by [scan_ack_blocks] is iterated by [AckIter] without underflow or failed
+    [unwrap]; the ranges are inside [0, largest], highest first and pairwise separated. *)
+Theorem C10_ack_iter_safe : forall bs largest delay additional ecn r,
+  all_bytes bs = true ->
+  try_next bs = DOk (Ack largest delay additional ecn) r ->
+  exists lo rs, ack_ranges largest additional = AOk ((lo, largest) :: rs) /\
+                0 <= lo <= largest /\ Forall (range_ok lo) rs.
+Proof. exact ack_iter_safe. Qed.
+Print Assumptions C10_ack_iter_safe.
+
+(** [Iter] over arbitrary bytes: every item is a frame (whose ACK ranges can be walked) or an
+    [InvalidFrame] error; no panic, no fuel exhaustion; and the whole decode operation observed
+    through the hook is defined. *)
+Theorem C10_frame_iter_total : forall bs last,
+  all_bytes bs = true -> Forall item_ok (iter_all (length bs) bs last).
+Proof. intros bs last H. apply iter_all_ok; [exact H|apply le_n]. Qed.
+Print Assumptions C10_frame_iter_total.
+
+Theorem C10_frame_decode_never_panics : forall bs,
+  all_bytes bs = true -> exists o, decode_out bs = Some o.
+Proof. exact decode_never_panics. Qed.
+Print Assumptions C10_frame_decode_never_panics.
+
+(** Non-vacuity. *)
+Example C10_frame_example :
+  wf_frame (Stream 4 70000 true [1; 2; 3]) = true /\
+  encode_frame true 0 (Stream 4 70000 true [1; 2; 3]) = Some [15; 4; 128; 1; 17; 112; 3; 1; 2; 3] /\
+  iter [15; 4; 128; 1; 17; 112; 3; 1; 2; 3; 1] = Some [IFrame (Stream 4 70000 true [1; 2; 3]); IFrame Ping].
+Proof. vm_compute. repeat split. Qed.
+Example C10_ack_example :
+  wf_ranges [(1, 4); (5, 6); (10, 12); (14, 15)] = true /\
+  encode_ack 42 [(1, 4); (5, 6); (10, 12); (14, 15)] None = Some [2; 14; 42; 3; 0; 1; 1; 3; 0; 0; 2] /\
+  ack_ranges 14 [0; 1; 1; 3; 0; 0; 2] = AOk [(14, 14); (10, 11); (5, 5); (1, 3)].
+Proof. vm_compute. repeat split. Qed.
+Example C10_close_example :
+  encode_frame true 10 (CloseApp 7 [65; 66; 67; 68; 69; 70; 71; 72]) = Some [29; 7; 6; 65; 66; 67; 68; 69; 70] /\
+  try_next [29; 7; 6; 65; 66; 67; 68; 69; 70; 1] = DOk (CloseApp 7 [65; 66; 67; 68; 69; 70]) [1].
+Proof. vm_compute. split; reflexivity. Qed.
+Example C10_decode_error_example :
+  decode_out [1; 2; 5; 0; 0; 9] = Some [0; 1; -1; 3; 2] /\ decode_out [] = Some [1].
 Proof. vm_compute. split; reflexivity. Qed.
